@@ -374,6 +374,58 @@ example : ∃ s, Reach exCfg exShared 3 s ∧ ∃ t ∈ s.ths, t.pc = .shed := b
     obtain ⟨t, ht, hp⟩ := List.mem_map.mp this
     exact ⟨t, ht, hp⟩
 
+/-! ### finding C02-threshold-at-cpumax-nan: the pinned (unguarded) `overloadFactor`
+
+`WithCpuThreshold(1000)` makes `overloadFactor` compute `(1000 − cpu) / 0`.  For `cpu = 1000` — the only reading at
+which the checker `cpu ≥ threshold` says "over" without overshoot — this is `0/0 = NaN`; `mathx.Between` returns NaN
+(both of its comparisons are false), the limit `maxFlight·NaN` is NaN and `avgFlying > NaN` is false: nothing is
+ever shed, however many requests are in flight.  `Pinned` is the model with that behaviour; it differs from the
+model of the fixed code only at threshold = cpuMax = cpu. -/
+
+namespace Pinned
+
+/-- the unguarded factor: `none` = NaN. -/
+def factor (threshold cpu : Int) : Option Rat :=
+  if threshold = cpuMax ∧ cpu = cpuMax then none else some (overloadFactor threshold cpu)
+
+/-- `highThru` with a NaN-aware comparison (`x > NaN` is false). -/
+def highThru (s : Shedder) (now : Nat) (cpu : Int) : Bool :=
+  match factor s.cpuThreshold cpu with
+  | none => false
+  | some f => decide (s.avgFlying > s.maxFlight now * f) && decide ((s.flying : Rat) > s.maxFlight now * f)
+
+def shouldDrop (s : Shedder) (now : Nat) (cpuOver : Bool) (cpu : Int) : Bool :=
+  s.gate now cpuOver && highThru (s.afterGate now cpuOver) now cpu
+
+def verdict (s : Shedder) (now : Nat) (cpuOver : Bool) (cpu : Int) : Verdict :=
+  if shouldDrop s now cpuOver cpu then .overloaded else .admitted
+
+/-- away from threshold = cpuMax = cpu the pinned code and the model of the fixed code agree. -/
+theorem agrees (s : Shedder) (now : Nat) (cpuOver : Bool) (cpu : Int) (h : ¬ (s.cpuThreshold = cpuMax ∧ cpu = cpuMax)) :
+    verdict s now cpuOver cpu = (s.allow now cpuOver cpu).2 := by
+  have ht : (s.afterGate now cpuOver).cpuThreshold = s.cpuThreshold := afterGate_threshold s now cpuOver
+  have hh : highThru (s.afterGate now cpuOver) now cpu = (s.afterGate now cpuOver).highThru now cpu := by
+    unfold highThru factor
+    rw [ht, if_neg h]
+    simp only [Shedder.highThru, Shedder.limit, ht]
+  unfold verdict shouldDrop Shedder.allow Shedder.shouldDrop
+  rw [hh]
+
+/-- 100 ms buckets, no passes (capacity 10), threshold = cpuMax; 50 in flight, average 40. -/
+def exState : Shedder :=
+  { (Shedder.new 1000000000 10 1000 1) with flying := 50, avgFlying := 40 }
+
+/-- **Witness.**  CPU at the threshold (the checker says "over"), in-flight count 50 and its average 40 both above the
+full capacity estimate 10: the property demands a shed (`sheds_when_over_capacity` — the fixed code does shed), the
+pinned code admits the request. -/
+theorem witness :
+    exState.maxFlight 5 = 10
+    ∧ (exState.flying : Rat) > exState.maxFlight 5 ∧ exState.avgFlying > exState.maxFlight 5
+    ∧ verdict exState 5 true 1000 = .admitted
+    ∧ (exState.allow 5 true 1000).2 = .overloaded := by decide +kernel
+
+end Pinned
+
 /-- **A disabled shedder never sheds** (`NewAdaptiveShedder` returns the nop shedder when disabled). -/
 theorem disabled_never_sheds : nopAllow = Verdict.admitted := rfl
 
